@@ -90,16 +90,14 @@ Theorem sticky_only_breaks_ties : forall s i best isticky tie,
 Proof. exact sticky_only_breaks_ties. Qed.
 Print Assumptions sticky_only_breaks_ties.
 
-(* ---- no_queued_while_parked is FALSE of the model: a witness ---------------------------------------------------------
-   [c04w_evs] (ProofsC04W.v) is a 17-event run (four workers, five Execute calls) with fresh call ids, selector answers
-   in range and no panic, after which a task is queued in a size class queue in which three undrained workers are
-   parked.  The cause is that [ichildren_less] (the code's idleSynchronizingWorkersChildrenHeap.Less) is not transitive:
-   an invocation without executing and without idle-synchronizing workers of its own (it is in the heap because of a
-   descendant) ties with every sibling on the utilisation products and is compared by completion time only, so three
-   siblings can precede each other cyclically, [minimal] (the admissible heap roots) is empty and the model's
-   [schedule_candidates] finds nobody.  The code takes heap element 0, which exists, so the code does assign the task:
-   the witness shows a divergence between the model and the code, and a state in which no arrangement of that heap
-   satisfies the heap order (every element has a strict predecessor). *)
+(* ---- the order on children holding idle workers is not a strict weak order ------------------------------------------
+   [c04w_pre] (ProofsC04W.v) is a 16-event run (four workers, four Execute calls, three completions) after which the
+   three children a, b, z of the root invocation that hold idle workers precede each other cyclically under
+   [ichildren_less] (the code's idleSynchronizingWorkersChildrenHeap.Less): an invocation without executing and without
+   idle-synchronizing workers of its own (it is in the heap because of a descendant) ties with every sibling on the
+   utilisation products and is compared by completion time only.  No arrangement of that heap satisfies the heap order,
+   and [minimal] (the admissible heap roots) is empty; [descend_idle] then admits every child, as the code takes
+   whatever element 0 of the heap is. *)
 Example ichildren_less_cyclic :
   let s := fst (run (init c04w_cfg 1000) c04w_pre) in
   let a := mkI c04w_K [1%N] in let b := mkI c04w_K [2%N] in let z := mkI c04w_K [3%N] in
@@ -108,12 +106,5 @@ Example ichildren_less_cyclic :
   minimal (ichildren_less s) (idle_sync_children s (mkI c04w_K [])) = [].
 Proof. exact c04w_cycle. Qed.
 
-Example no_queued_while_parked_refuted :
-  fresh_calls [] c04w_evs /\ no_phantom_sync c04w_evs /\ selectors_in_range (init c04w_cfg 1000) c04w_evs /\
-  (forall o what, In o (snd (run (init c04w_cfg 1000) c04w_evs)) -> ~ In (OPanic what) o) /\
-  c04_dump (observe (fst (run (init c04w_cfg 1000) c04w_evs))) = "C04:task-queued-while-worker-waits"%string.
-Proof. exact (conj c04w_fresh (conj c04w_no_phantom (conj c04w_in_range (conj c04w_no_panic c04w_violation)))). Qed.
-Print Assumptions no_queued_while_parked_refuted.
-
 (* NOT PROVED (see docs/areas/Sched-proofs.md):
-   Theorem qchildren_less_trans (transitivity of the exact score comparison). *)
+   Theorem no_queued_while_parked, Theorem qchildren_less_trans (transitivity of the exact score comparison). *)
